@@ -24,23 +24,25 @@ type guardInfo struct {
 	owner     types.Type
 	lockField string
 	name      string
+	global    string // package-level lock variable (constant ref term), for "guarded_by var x : lockVar"
 }
 
 type Engine struct {
-	curView  string            // proof view for the next verifyFunc call
-	excuses  map[string]string // open known findings: obligation name -> pre-state predicate describing the recorded failing inputs
-	repo     string
-	verif    string
-	prog     *ssa.Program
-	pkgs     []*packages.Package
-	spkgs    map[string]*ssa.Package   // by path suffix
-	tpkgs    map[string]*types.Package // by path suffix (including dependencies seen through imports)
-	cs       *ContractSet
-	frames   map[*ssa.Function]*Effects
-	reads    map[*ssa.Function]*Effects
-	guarded  map[string]guardInfo
-	funcs    map[string]*ssa.Function
-	loadSecs float64
+	curView    string            // proof view for the next verifyFunc call
+	excuses    map[string]string // open known findings: obligation name -> pre-state predicate describing the recorded failing inputs
+	repo       string
+	verif      string
+	prog       *ssa.Program
+	pkgs       []*packages.Package
+	spkgs      map[string]*ssa.Package   // by path suffix
+	tpkgs      map[string]*types.Package // by path suffix (including dependencies seen through imports)
+	cs         *ContractSet
+	frames     map[*ssa.Function]*Effects
+	reads      map[*ssa.Function]*Effects
+	guarded    map[string]guardInfo
+	guardedSub map[string]guardInfo // struct-typed guarded fields, by the tag of their sub-object reference
+	funcs      map[string]*ssa.Function
+	loadSecs   float64
 }
 
 func (eng *Engine) pkgSuffix(path string) string {
@@ -129,24 +131,44 @@ func (eng *Engine) loadContracts() {
 	}
 	// guarded_by declarations
 	eng.guarded = map[string]guardInfo{}
+	eng.guardedSub = map[string]guardInfo{}
 }
 
 func (eng *Engine) resolveGuards() {
 	for _, g := range eng.cs.Guarded {
+		tp := eng.tpkgs[g.Pkg]
+		if tp == nil {
+			continue
+		}
+		if strings.HasPrefix(g.Field, "var ") {
+			// a package-level struct variable guarded by a package-level mutex: every field of the variable's (own) struct type
+			v, ok := tp.Scope().Lookup(strings.TrimSpace(g.Field[4:])).(*types.Var)
+			lv, ok2 := tp.Scope().Lookup(g.Lock).(*types.Var)
+			if !ok || !ok2 {
+				panic("guarded_by: unknown package variable in " + g.Field + " : " + g.Lock)
+			}
+			stt, isStruct := v.Type().Underlying().(*types.Struct)
+			if !isStruct {
+				panic("guarded_by var: " + v.Name() + " is not a struct variable")
+			}
+			for i := 0; i < stt.NumFields(); i++ {
+				eng.guarded[fieldKey(v.Type(), sanitize(stt.Field(i).Name()))] = guardInfo{owner: v.Type(), name: v.Name() + "." + stt.Field(i).Name(),
+					global: "gref." + sanitize(g.Pkg) + "." + lv.Name()}
+			}
+			continue
+		}
 		fp := strings.SplitN(g.Field, ".", 2)
 		lp := strings.SplitN(g.Lock, ".", 2)
 		if len(fp) != 2 || len(lp) != 2 {
-			continue
-		}
-		tp := eng.tpkgs[g.Pkg]
-		if tp == nil {
 			continue
 		}
 		tn, ok := tp.Scope().Lookup(fp[0]).(*types.TypeName)
 		if !ok {
 			continue
 		}
-		eng.guarded[fieldKey(tn.Type(), sanitize(fp[1]))] = guardInfo{owner: tn.Type(), lockField: lp[1], name: g.Field}
+		gi := guardInfo{owner: tn.Type(), lockField: lp[1], name: g.Field}
+		eng.guarded[fieldKey(tn.Type(), sanitize(fp[1]))] = gi
+		eng.guardedSub[sanitize("sub."+typeName(tn.Type())+"."+fp[1])] = gi
 	}
 }
 
